@@ -686,6 +686,7 @@ GLOBAL_INIT = {}    # library global name -> fn(interp) -> initial value
 FRESH_HOOKS = {}    # type string -> fn(ctx, t, tag, opts)
 LAZY_HOOKS = {}     # type string -> fn(ctx, lazy)
 IFACE_CANDS = {}    # interface type -> list of candidate dyn types (None = nil)
+SUMMARIES = {}      # summary id -> fn(interp, args, instr): verified summaries of repository functions (DESIGN 3.4)
 STUBS = {}          # function name -> fn(interp, args, instr) -> result
 INVOKE_STUBS = {}   # (dyn type, method id) -> fn(interp, recv, args, instr)
 
@@ -773,6 +774,10 @@ class Interp:
     # ---- function execution
     def call_function(self, name, args, instr=None):
         ctx = self.ctx
+        sm = ctx.opts.get('summaries')
+        if sm and name in sm:
+            ctx.hit('summary:' + name)
+            return SUMMARIES[sm[name]](self, args, instr)
         st = STUBS.get(name)
         if st is not None:
             ctx.hit(name)
